@@ -156,5 +156,16 @@ def run(check: Check) -> None:
 
             rig.run_sym(check, "encoding", fn, claims, replay=rep, timeout_ms=tmo, case_id=f"{formula}",
                         sample={"formula": formula, "data": "A with levels x,y,z and a null; a symbolic", "reference": "closed-form coding"}, record=False)
+            # native companion (ground): the other output types have their own encoding code paths (sparse slicing / products)
+            for out in ("sparse", "pandas"):
+                cand = {"kind": "c11_pipeline", "formula": formula, "spec": spec, "a": [1.5, -2.0, 3.25, 0.5, 4.0, -1.0, 2.0], "output": out}
+                try:
+                    bad = replays.run(cand)
+                except Exception as e:
+                    bad = f"raised-{type(e).__name__}: {formula!r} (output={out}): {str(e)[:120]}"
+                check.case(f"{formula} [{out}]")
+                check.obligation(f"encoding.{out}/ground", "refuted" if bad else "ground")
+                if bad:
+                    check.violation(f"encoding::{spec}::{out}", bad, cand)
 
 
